@@ -31,6 +31,10 @@ class World:
         self.case = case
         mm = case['mm']
         self.strings = case.get('strings', [])
+        self.render = case.get('render', 'dynamic')
+        if self.render != 'dynamic':
+            self._init_static(case, mm, observers, E, ResourceSet, URI, EObserver)
+            return
         self.enums = []
         for en in mm.get('enums', []):
             self.enums.append(E.EEnum(en['name'], literals=list(en['literals'])))
@@ -71,6 +75,32 @@ class World:
         self.pkg = E.EPackage('p', nsURI='http://p', nsPrefix='p')
         self.pkg.eClassifiers.extend(list(self.classes.values()))
         self.pkg.eClassifiers.extend(self.enums)
+        self.objs = [self.classes[cn]() for cn in case['objs']]
+        self.oid = {id(o): i for i, o in enumerate(self.objs)}
+        self.rset = ResourceSet()
+        self.res = [self.rset.create_resource(URI(f'/nonexistent/r{i}.xmi')) for i in range(case.get('nres', 0))]
+        self.rid = {id(r): i for i, r in enumerate(self.res)}
+        self.log = []
+        if observers:
+            for i, o in enumerate(self.objs):
+                EObserver(o, notifyChanged=self._mk_obs(('o', i)))
+            for i, r in enumerate(self.res):
+                ob = EObserver(notifyChanged=self._mk_obs(('r', i)))
+                r.listeners.append(ob)
+
+    def _init_static(self, case, mm, observers, E, ResourceSet, URI, EObserver):
+        from harness import kstatic
+        style = 'meta' if self.render == 'static-meta' else 'decorator'
+        self.module, pyclasses, nsuri = kstatic.render(mm, style)
+        self.enums = [self.module.__dict__[en['name']] for en in mm.get('enums', [])]
+        self.classes = pyclasses
+        self.feats = []
+        for c in mm['classes']:
+            for fd in c['features']:
+                f = pyclasses[c['name']].eClass.findEStructuralFeature(fd['name'])
+                self.feats.append((c['name'], fd, f))
+        self.fid = {id(f): i for i, (_, _, f) in enumerate(self.feats)}
+        self.pkg = self.module
         self.objs = [self.classes[cn]() for cn in case['objs']]
         self.oid = {id(o): i for i, o in enumerate(self.objs)}
         self.rset = ResourceSet()
